@@ -63,6 +63,12 @@ def build_group(case):
         np.fill_diagonal(buf, 1)
         return G, m, gen_names(n, style)
     names = gen_names(n, style)
+    if case.get("names") is not None:
+        # the diagram names its generators itself ("each generator can be any hashable object"): integers, numpy
+        # integers, digit strings ... in any order, possibly colliding with the internal labels 0..n-1
+        names = list(case["names"])
+        if case.get("np_int"):
+            names = [np.int64(x) for x in names]
     pairs = case.get("pairs") or [[i, j] for i in range(n) for j in range(i + 1, n)]
     diagram = [(names[i], names[j], m[i][j]) for (i, j) in pairs]
     G = coxeter.CoxeterGroup(diagram=diagram)
@@ -154,6 +160,29 @@ def min_pairwise_distance_below(mats, tol):
     return None
 
 
+def graph_language(A, L, names):
+    """All label sequences of length <= L readable from the start vertices in the automaton's label view, as tuples
+    of generator indices (harness-side enumeration for automata whose labels are not strings: the library's
+    enumerate_words concatenates labels).  Returns (list of words, labels that are not generator names)."""
+    idx = {}
+    for i, g in enumerate(names):
+        idx[g] = i
+    gd = A.graph_dict
+    cur = [((), s) for s in A.start_vertices]
+    out, bad = [w for (w, _) in cur], []
+    for _ in range(L):
+        nxt = []
+        for (w, v) in cur:
+            for label, tgt in gd[v].items():
+                if label not in idx:
+                    bad.append(label)
+                else:
+                    nxt.append((w + (idx[label],), tgt))
+        cur = nxt
+        out.extend(w for (w, _) in cur)
+    return out, bad
+
+
 def split_names(s, names, single):
     if single:
         return tuple(names.index(ch) for ch in s)
@@ -165,8 +194,10 @@ def case_matrix(case):
     L = int(case["L"])
     G, m, names = build_group(case)
     n = len(m)
-    single = all(len(x) == 1 for x in names)
-    V = Collector("matrix %r (%s, %s)" % (m, case.get("route", "matrix"), case.get("style", "alpha")))
+    strs = all(isinstance(x, str) for x in names)
+    single = strs and all(len(x) == 1 for x in names)
+    V = Collector("matrix %r (%s, %s)" % (m, case.get("route", "matrix"),
+                                         case.get("style", "alpha") if case.get("names") is None else "generators named %r" % (names,)))
     t = 0
     if "_ctor_modified" in case:
         V.add("ctor/caller-matrix-modified", "the constructor rewrote the caller's array to %r" % (case["_ctor_modified"],))
@@ -259,9 +290,14 @@ def case_matrix(case):
 
     # ---------------- enumerate_words: the language up to Le as a set ---------------------
     for which, A, lang in (("geodesic", geo, reduced_words[0]), ("shortlex", slx, reduced_words[1])):
-        got = list(A.enumerate_words(Le))
+        if strs:
+            got = list(A.enumerate_words(Le))
+            got_t = [split_names(x, names, single) for x in got]
+        else:
+            got_t, foreign = graph_language(A, Le, names)
+            if foreign:
+                V.add("%s/labels/not-a-generator-name" % which, "edge labels %r, generators are named %r" % (foreign[:4], names))
         t += 1
-        got_t = [split_names(x, names, single) for x in got]
         if len(got_t) != len(set(got_t)):
             dup = sorted({x for x in got_t if got_t.count(x) > 1})[:3]
             V.add("%s/enumerate_words/duplicate" % which, "listed more than once: %r" % (dup,))
@@ -309,6 +345,9 @@ def case_matrix(case):
     # ---------------- even-length variants ------------------------------------------------
     skipped = ""
     for which, shortlex, lang in (("even-geodesic", False, reduced_words[0]), ("even-shortlex", True, reduced_words[1])):
+        if not strs:
+            skipped = "|names-not-strings"   # two-generator labels are concatenated names: strings only
+            continue
         if even_cost(slx if shortlex else geo, EVEN_LIMIT) > EVEN_LIMIT:
             skipped += "|no-" + which        # see even_cost: construction cost ~ number of reduced words
             continue
@@ -347,13 +386,14 @@ def case_matrix(case):
     # ---------------- faithful images of the shortlex words -------------------------------
     Limg = min(int(case.get("Limg", L)), Lc)
     nf_words = sorted((x for x in reduced_words[1] if len(x) <= Limg), key=lambda z: (len(z), z))
-    rep = G.canonical_representation()
-    mats = [np.asarray(rep[to_lib_word(x, names, single)], dtype=float) for x in nf_words]
-    t += len(mats)
-    hit = min_pairwise_distance_below(mats, IMG_TOL)
-    if hit is not None:
-        V.add("images/collision", "shortlex words %r and %r have canonical-representation images within %g"
-              % (nf_words[hit[0]], nf_words[hit[1]], IMG_TOL))
+    if strs and all(re.search("[a-zA-Z]", x) for x in names):      # a Representation only takes string names with a letter
+        rep = G.canonical_representation()
+        mats = [np.asarray(rep[to_lib_word(x, names, single)], dtype=float) for x in nf_words]
+        t += len(mats)
+        hit = min_pairwise_distance_below(mats, IMG_TOL)
+        if hit is not None:
+            V.add("images/collision", "shortlex words %r and %r have canonical-representation images within %g"
+                  % (nf_words[hit[0]], nf_words[hit[1]], IMG_TOL))
 
     o = "%s|%s|%s%s" % (",".join(map(str, growth[:10])), "fin" if spherical else "inf", "X" if exhausted else "", skipped)
     return {"v": V.out(), "t": nclassified, "o": o, "nt": hard > 0}
@@ -447,6 +487,9 @@ def run(ctx):
     ctx.assume("words given to accepts() use only the automaton's own labels (generator names; two-generator labels "
                "for the even-length variant)")
     ctx.assume("the order of the generators is G.ordered_gens (for the matrix route: the index order)")
+    ctx.assume("a diagram may name its generators by any hashable object (documented); for names that are not strings words are "
+               "tuples / lists of names, and enumerate_words, the even-length variant (which need string names) and the "
+               "canonical representation (string names containing a letter) are not used")
     ctx.tolerances["images"] = ("distinct shortlex words must have canonical-representation images more than 1e-6 "
                                 "apart in some entry; entries are algebraic integers of Z[2cos(pi/m)] of moderate "
                                 "height for |w| <= 8, measured minimum distance is >= 0.1")
@@ -495,6 +538,32 @@ def run(ctx):
                 domains={"labels": sub, "routes": ["matrix/alphanum", "diagram/alpha listed (1,2),(0,2),(0,1)",
                                                    "diagram/alphanum", "integer ndarray overwritten by the caller after construction"],
                          "L": L3 - 2}, chunk=2)
+    # ---- generators named by the diagram itself: integers (in every order, 1-based, far from 0..n-1, numpy integers), digit strings
+    name_lists = [([2, 0, 1], False), ([1, 2, 0], False), ([1, 2, 3], False), ([0, 2, 1], False), ([1, 0, 2], True), (["2", "0", "1"], False)]
+    if not q:
+        name_lists += [([0, 1, 2], False), ([2, 1, 0], False), ([1, 0, 2], False), ([5, 9, 7], False), ([2, 0, 1], True), (["1", "2", "0"], False)]
+    cases = []
+    for m in all_matrices(3, sub):
+        enc = encodings(m)
+        mm = enc[1][1] if len(enc) > 1 else enc[0][1]
+        for k, (nl, npi) in enumerate(name_lists):
+            c = {"m": mm, "L": L3 - 2, "route": "diagram", "Lg": 12, "names": nl, "np_int": npi}
+            if k % 3 == 2:
+                c["pairs"] = [[1, 2], [0, 2], [0, 1]]
+            cases.append(c)
+    nl4 = [[3, 1, 0, 2], [1, 2, 3, 4]] + ([] if q else [[2, 3, 0, 1], [0, 1, 2, 3]])
+    for ls in itertools.product([3, 4, 0] if q else [3, 4, 5, 0], repeat=3):
+        for m4 in (cw.path_matrix(list(ls)), cw.star_matrix(list(ls), centre=1)):
+            enc = encodings(m4)
+            for nl in nl4:
+                cases.append({"m": enc[-1][1], "L": 5 if q else 6, "route": "diagram", "Lg": 10, "Lmat": 5, "cap": 3000, "names": nl, "np_int": False})
+    P("diagram-own-names", "checks.c07:case_matrix", cases,
+      domains={"rank 3": "all ordered matrices with labels %r" % (sub,), "rank 3 generator names (numpy int64?)": [list(x) for x in name_lists],
+               "rank 4": "path and star (centre 1) diagrams, edge labels %r" % ([3, 4, "inf"] if q else [3, 4, 5, "inf"],), "rank 4 generator names": nl4,
+               "diagram listing": "pairs in index order; every third name list as (1,2),(0,2),(0,1)",
+               "words": "tuples / lists of the names; for non-string names the accepted language is read off the label view by the harness "
+                        "(enumerate_words and the even-length variant concatenate labels: strings only), accepts() on every one-letter extension "
+                        "of a reduced word, path counts vs Steinberg", "L": L3 - 2}, chunk=4)
     # ---- rank 4
     labels4 = [2, 3, 4, 0] if q else [2, 3, 4, 5, 0]
     L4 = 5 if q else 6
